@@ -33,16 +33,22 @@ ACTIONS = ['Validate', 'CreateFile', 'AppendToFile', 'CreateEmptyDir', 'CreateDi
            'ExtendDirFromList', 'ExtendDirFromCopy', 'CopyClash', 'HardError', 'EndOfList', 'Populated',
            'ListDirect', 'StartWalk', 'ReadDir', 'VisitYieldDescend', 'VisitYield', 'VisitDescend', 'VisitSkip',
            'EndWalk', 'Judge']
+ALWAYS = ('full', 'full/B', 'num', 'empty')     # probes replayed for every scenario also in the quick tier
 ALL_FAMILIES = ['populate', 'invalid', 'match', 'exists', 'names']
+GC = ['-XX:ParallelGCThreads=2']      # many single-worker TLC processes run side by side
 
 # constants of the run that is model checked with coverage (vacuity control) ...
 COVERAGE = dict(NN=2, MaxLevels=3, MaxNodes=2, ExtraNodes=0, ExtraMod=1, ExtraPick=0,
-                LeafKinds=['f', 'd', 'lf', 'ld', 'lb'], MaxLinks=2, MaxEntries=2, MaxNameLen=2, WrapLevel=1)
+                LeafKinds=['f', 'd', 'lf', 'ld', 'lb'], MaxLinks=2, MaxEntries=2, ListMod=1, ListPick=0, MaxTail=1, MaxNameLen=2,
+                WrapLevel=1)
 # ... and of the runs that check the invariants and export the scenarios that are replayed
 QUICK = dict(NN=2, MaxLevels=3, MaxNodes=3, ExtraNodes=0, ExtraMod=1, ExtraPick=0,
-             LeafKinds=['f', 'd', 'ld', 'lb'], MaxLinks=2, MaxEntries=3, MaxNameLen=3, WrapLevel=1)
-THOROUGH = dict(NN=2, MaxLevels=3, MaxNodes=4, ExtraNodes=5, ExtraMod=40, ExtraPick=0,
-                LeafKinds=['f', 'g', 'd', 'lf', 'ld', 'lb'], MaxLinks=2, MaxEntries=4, MaxNameLen=4, WrapLevel=2)
+             LeafKinds=['f', 'd', 'ld', 'lb'], MaxLinks=2, MaxEntries=3, ListMod=2, ListPick=0, MaxTail=1, MaxNameLen=3,
+             WrapLevel=1)
+THOROUGH = dict(NN=2, MaxLevels=3, MaxNodes=3, ExtraNodes=4, ExtraMod=24, ExtraPick=0,
+                LeafKinds=['f', 'g', 'd', 'lf', 'ld', 'lb'], MaxLinks=2, MaxEntries=3, ListMod=1, ListPick=0, MaxTail=2,
+                MaxNameLen=4, WrapLevel=2)
+N_GIVEN_TREES, N_GIVEN_LISTS = 16000, 20000
 
 
 def tla(v):
@@ -302,6 +308,7 @@ def _ident(r, keep):
 
 def exec_populate(task, cd):
     from harness import inproc
+    c0 = time.process_time()
     sc = task['sc']
     text = task.get('text') or populate_text(sc)
     cd.write({'c.case': text, 'src/a': '8', 'src/b/a': '8'})
@@ -315,12 +322,13 @@ def exec_populate(task, cd):
         user_tmp = sorted(os.listdir(os.path.join(sds, 'tmp')))
     return dict(verdict=_ident(r, True), exit=r['exit'], act=act, user_tmp=user_tmp, sandboxes=len(cd.sandboxes()),
                 home_changed=before != after, tmp_entries=len(os.listdir(cd.tmp)), stderr=r['stderr'][:600],
-                text=text)
+                text=text, cpu=time.process_time() - c0)
 
 
 def exec_tree(task, cd):
     """One tree scenario: build the tree, run the probes.  Result: {probe index: verdict}."""
     from harness import inproc
+    c0 = time.process_time()
     sc = task['sc']
     sctext = text_of_name(sc)
     make_tree(sc['nodes'], sctext, cd.home, os.path.join(cd.root, 'ext'))
@@ -352,7 +360,8 @@ def exec_tree(task, cd):
         obs[i] = v
         if v != VERDICT[probes[i]['exp']]:
             detail[i] = dict(line=line, stderr=r['stderr'][:600])
-    return dict(obs=obs, batched=batched_ok, detail=detail, sandboxes=len(cd.sandboxes()))
+    return dict(obs=obs, batched=batched_ok, detail=detail, sandboxes=len(cd.sandboxes()),
+                cpu=time.process_time() - c0)
 
 
 # ------------------------------------------------------------------------------------------------------------
@@ -486,10 +495,78 @@ def random_given(rnd, n, n_wraps):
     return out
 
 
+LIST_NAMES = [[1], [2], [3], [1, 2], [2, 3], [3, 1], [1, 2, 3]]
+BAD_NAMES = [[], [0], [0, 1], [1, 0, 2], [9, 1], [2, 0]]
+
+
+def random_lists(rnd, n):
+    """FILE-LISTs beyond the exhaustive bound: 4..8 entries, three levels, more names.  The generator keeps a rough
+    picture of what exists only to choose entries that have a chance to work; what they denote is TLC's business."""
+    out = []
+    for _ in range(n):
+        budget = [rnd.randint(4, 8)]
+        files, dirs = set(), {()}
+
+        def pick(base, want, pool):
+            cands = [nm for nm in LIST_NAMES if (tuple(base + nm) in pool) == want]
+            return rnd.choice(cands) if cands and rnd.random() < 0.85 else rnd.choice(LIST_NAMES)
+
+        def note_parents(p):
+            for k in range(1, len(p)):
+                dirs.add(tuple(p[:k]))
+
+        def mk(base, level):
+            es = []
+            for _ in range(rnd.randint(1, 4)):
+                if budget[0] <= 0:
+                    break
+                budget[0] -= 1
+                r = rnd.random()
+                if r < 0.4:
+                    nm = pick(base, False, files | dirs)
+                    es.append(dict(t='file', name=nm, mod=rnd.choice(['none', 'set', 'set']), sub=[]))
+                    files.add(tuple(base + nm))
+                    note_parents(base + nm)
+                elif r < 0.55:
+                    es.append(dict(t='file', name=pick(base, True, files), mod='app', sub=[]))
+                elif r < 0.65:
+                    nm = pick(base, False, files | dirs)
+                    es.append(dict(t='dir', name=nm, mod='none', src='none', sub=[]))
+                    dirs.add(tuple(base + nm))
+                    note_parents(base + nm)
+                elif r < 0.9:
+                    create = rnd.random() < 0.6
+                    nm = pick(base, False, files | dirs) if create else pick(base, True, dirs)
+                    if create:
+                        dirs.add(tuple(base + nm))
+                        note_parents(base + nm)
+                    sub = mk(base + nm, level + 1) if level < 3 else []
+                    es.append(dict(t='dir', name=nm, mod='set' if create else 'app', src='list', sub=sub))
+                else:
+                    create = rnd.random() < 0.7
+                    nm = pick(base, False, files | dirs) if create else pick(base, True, dirs)
+                    es.append(dict(t='dir', name=nm, mod='set' if create else 'app', src='copy', sub=[]))
+                    if create:
+                        dirs.update({tuple(base + nm), tuple(base + nm + [2])})
+                        files.update({tuple(base + nm + [1]), tuple(base + nm + [2, 1])})
+                        note_parents(base + nm)
+                e = es[-1]
+                if e['t'] == 'file':
+                    e['src'] = 'none' if e['mod'] == 'none' else 'text'
+                if rnd.random() < 0.02:
+                    e['name'] = rnd.choice(BAD_NAMES)
+            return es
+        sub = mk([], 1)
+        pre = rnd.random() < 0.15
+        out.append(dict(top=dict(t='dir', name=[D_NAME], mod='app' if pre else 'set', src='list', sub=sub), pre=pre))
+    return out
+
+
 def nontrivial_key(sc):
     if sc['fam'] in ('populate', 'invalid'):
         return 'P|' + populate_text(sc)
-    return '%s|%s|%s|%s|%s' % (sc['fam'], tree_name(sc), opt_name(sc['opt']), wrap_name(sc), rel_path(sc['rel']))
+    return '%s|%s|%s|%s|%s' % (sc['fam'], tree_name(sc), opt_name(sc['opt']), wrap_name(sc),
+                               rel_path(sc['rel'], text_of_name(sc)))
 
 
 def is_nontrivial(sc):
@@ -502,13 +579,16 @@ def is_nontrivial(sc):
 
 def run(ctx):
     quick = ctx.tier == 'quick'
-    consts = QUICK if quick else THOROUGH
+    consts = dict(QUICK if quick else THOROUGH)
+    consts['ListPick'] = ctx.seed % consts['ListMod']      # which slice of the longest lists
+    consts['ExtraPick'] = ctx.seed % consts['ExtraMod']    # ... and of the biggest trees
     nshards = 12 if quick else 16
     t0 = time.time()
     jobs = [dict(module='DirTree', cfg=cfg(COVERAGE, ALL_FAMILIES, INVARIANTS), coverage=True, name='mc-coverage',
                  workers=4, count=False),
             # every order in which the entries of a directory can be visited (small trees)
-            dict(module='DirTree', cfg=cfg(dict(COVERAGE, MaxNodes=3 if quick else 4, LeafKinds=['f', 'd', 'ld']),
+            dict(module='DirTree', cfg=cfg(dict(COVERAGE, MaxNodes=3, LeafKinds=['f', 'd', 'ld'] if quick else
+                                                ['f', 'd', 'ld', 'lb']),
                                            ['match'], ['GeneratorIsReference', 'GeneratorSound', 'BreadthFirst'],
                                            any_order=True), name='mc-anyorder', workers=2, count=False),
             # model-level negative control: without the validation of names the step machine escapes
@@ -517,7 +597,7 @@ def run(ctx):
                  count=False, must_hold=False)]
     for s in range(nshards):
         jobs.append(dict(module='DirTreeExport', cfg=cfg(consts, ALL_FAMILIES, INVARIANTS + ['Export'], nshards, s),
-                         workers=1, name='export-%d' % s, heap='3g', timeout=3000))
+                         workers=1, name='export-%d' % s, heap='3g', timeout=3000, java_props=GC))
     results = tlc_parallel(ctx, jobs, threads=16)
     mc, anyorder, dev, shards = results[0], results[1], results[2], results[3:]
     ctx.require_coverage(mc, ACTIONS)
@@ -535,18 +615,24 @@ def run(ctx):
     for f in ALL_FAMILIES:
         if not by_fam.get(f):
             raise core.MachineryFailure('vacuity: TLC exported no scenario of family %s' % f)
-    given = []
+    given, given_pop = [], []
     if not quick:
-        given = given_scenarios(ctx, consts, 30000)
+        given, given_pop = given_scenarios(ctx, consts, N_GIVEN_TREES, N_GIVEN_LISTS)
         by_fam['given'] = given
-        scs += given
+        by_fam['givenlist'] = given_pop
 
     # ---- replay -----------------------------------------------------------------------------------------------
     rnd = random.Random(ctx.seed)
-    pop = by_fam['populate'] + by_fam['invalid']
+    pop = by_fam['populate'] + by_fam['invalid'] + given_pop
     trees = by_fam['match'] + by_fam['exists'] + by_fam['names'] + given
     direct_rate = 0.04 if quick else 0.03
-    tree_tasks = [dict(sc=sc, direct=(sc['kind'] == 'dir-contents' and rnd.random() < direct_rate)) for sc in trees]
+    tree_tasks = []
+    for sc in trees:
+        t = dict(sc=sc, direct=(sc['kind'] == 'dir-contents' and rnd.random() < direct_rate))
+        if quick and sc['fam'] == 'match':
+            # quick tier: the probes that pin down the set of files always, a seeded third of the others
+            t['only'] = [i for i, p in enumerate(sc['probes']) if p['id'] in ALWAYS or rnd.random() < 1 / 3]
+        tree_tasks.append(t)
     t1 = time.time()
     with ctx.pool() as pool:
         pop_obs = pool.map('harness.props.c15:exec_populate', [dict(sc=sc) for sc in pop], deadline=120, chunk=24)
@@ -554,7 +640,12 @@ def run(ctx):
         controls = end_to_end_controls(ctx, pool, by_fam, rnd)
     t_replay = time.time() - t1
 
-    stats = dict(scenarios={f: len(v) for f, v in by_fam.items()}, probes=0, probes_unspecified=0, probes_single=0,
+    cpu = {}
+    for sc, o in list(zip(pop, pop_obs)) + [(t['sc'], o) for t, o in zip(tree_tasks, tree_obs)]:
+        if not broken(o):
+            cpu[sc['fam']] = cpu.get(sc['fam'], 0) + o.get('cpu', 0)
+    stats = dict(scenarios={f: len(v) for f, v in by_fam.items()}, worker_cpu_s={f: round(v, 1) for f, v in cpu.items()},
+                 probes=0, probes_not_replayed=0, probes_unspecified=0, probes_single=0,
                  probes_batched=0, populate_by_result={}, probe_verdicts={}, disagreements=0)
     for sc, o in zip(pop, pop_obs):
         ctx.count()
@@ -567,15 +658,17 @@ def run(ctx):
             register_populate(ctx, sc, o, clause)
     for t, o in zip(tree_tasks, tree_obs):
         sc = t['sc']
-        n_u = sum(1 for p in sc['probes'] if p['exp'] == 'U')
+        chosen = [p for i, p in enumerate(sc['probes']) if t.get('only') is None or i in t['only']]
+        stats['probes_not_replayed'] += len(sc['probes']) - len(chosen)
+        n_u = sum(1 for p in chosen if p['exp'] == 'U')
         stats['probes_unspecified'] += n_u
-        n = len(sc['probes']) - n_u
+        n = len(chosen) - n_u
         stats['probes'] += n
         ctx.count(n)
-        for p in sc['probes']:
+        for p in chosen:
             stats['probe_verdicts'][p['exp']] = stats['probe_verdicts'].get(p['exp'], 0) + 1
         if not broken(o):
-            nb = sum(1 for i, p in enumerate(sc['probes']) if p['exp'] in 'TF') if o['batched'] else 0
+            nb = sum(1 for p in chosen if p['exp'] in 'TF') if o['batched'] else 0
             stats['probes_batched'] += nb
             stats['probes_single'] += n - nb
         if is_nontrivial(sc):
@@ -602,20 +695,29 @@ def run(ctx):
     samples(ctx, pop, pop_obs, tree_tasks, tree_obs)
     ctx.cov['exhaustive'] = True
     ctx.cov['rule'] = (
-        'exhaustive within the constants: every FILE-LIST with <= %d entries (nested entries counted) over the names '
-        'a, b, a/b x {file, file =, file +=, dir, dir = {..}, dir += {..}, dir (=|+=) dir-contents-of}, the other '
-        'forms of the instruction, 288 lists with an invalid name; every tree with <= %d nodes over %d names, %d '
-        'levels, kinds %s%s x (non-recursive + every (min, max) up to one more than the depth of the tree) for the '
-        'plain model and 6 option sets for %d pruning/selection combinations, ~25 probes each; `exists` on 10 trees x '
-        '3 paths x 18 matchers x negation; file names over {a, b, .} up to length %d x 4 name parts x (2 literal '
-        'regex + 11 glob patterns)%s.  Non-trivial = FILE-LIST that fails or builds more than one file; tree scenario '
-        'with a non-empty tree and -recursive or pruning/selection; every exists / names scenario; distinct by text.'
-        % (consts['MaxEntries'], consts['MaxNodes'], consts['NN'], consts['MaxLevels'], consts['LeafKinds'],
-           (' + 1/%d of the trees with %d nodes' % (consts['ExtraMod'], consts['ExtraNodes'])
+        'exhaustive within the constants (scenarios are enumerated and judged by TLC, all of them are replayed): '
+        'every FILE-LIST with <= %d entries (nested entries counted; of those with exactly %d entries the slice '
+        'hash %% %d = %d; of the failing ones those with <= %d entries after the failing entry) over the names a, b, a/b '
+        'x {file, file =, file +=, dir, dir = {..}, dir += {..}, dir (=|+=) dir-contents-of}, the other forms of the '
+        'instruction (+= on an existing / missing directory, = on an existing one), 288 lists with an invalid name '
+        '(empty, .., ../a, a/.., a/../b, /a; alone, before / after working and failing entries, nested); every tree '
+        'with <= %d nodes over %d names, %d levels, kinds %s%s x (non-recursive + every (min, max) up to one more than '
+        'the depth of the tree) on the plain model, and 3..8 option sets x %d pruning/selection combinations (nested '
+        'both ways), 17..30 probes each%s; `exists` on 10 trees x 3 paths x 18 matchers x negation; file names over '
+        '{a, b, .} up to length %d x 4 name parts x (2 literal regex + 11 glob patterns)%s.  Non-trivial = FILE-LIST that '
+        'fails or builds more than one file; tree scenario with a non-empty tree and -recursive or pruning/selection; '
+        'every exists / names scenario; distinct by text.'
+        % (consts['MaxEntries'], consts['MaxEntries'], consts['ListMod'], consts['ListPick'], consts['MaxTail'],
+           consts['MaxNodes'], consts['NN'], consts['MaxLevels'], consts['LeafKinds'],
+           (' + the slice index %% %d = %d of the trees with %d nodes' % (consts['ExtraMod'], consts['ExtraPick'],
+                                                                        consts['ExtraNodes'])
             if consts['ExtraNodes'] else ''),
-           len(set(sc['wi'] for sc in by_fam['match'])) - 1, consts['MaxNameLen'],
-           '' if quick else '; plus %d seeded random trees (3 names, <= 9 nodes, 4 levels, limits up to 4) judged by '
-                            'TLC (family "given")' % len(given)))
+           len(set(sc['wi'] for sc in by_fam['match'])) - 1,
+           ' (quick tier: the probes full, num, empty of every scenario and a seeded third of the others are replayed)'
+           if quick else '', consts['MaxNameLen'],
+           '' if quick else '; plus %d seeded random trees (3 names, <= 9 nodes, 4 levels, limits up to 4) and %d '
+                            'seeded random FILE-LISTs (4..8 entries, 3 levels, 7 names) whose expectations are '
+                            'computed by TLC (families "given", "givenlist")' % (len(given), len(given_pop))))
     ctx.assumptions += [
         'file names are the single characters a, b, c (trees) and texts over {a, b, .} (names family); file contents are '
         'short digit strings; FILE-LIST texts are the ordinal of the entry',
@@ -634,31 +736,38 @@ def run(ctx):
     ]
 
 
-def given_scenarios(ctx, consts, n):
-    """Randomised tier: inputs from a seeded generator, expectations from TLC (family "given")."""
+def given_scenarios(ctx, consts, n_trees, n_lists):
+    """Randomised tier: inputs from a seeded generator, expectations from TLC (families "given", "givenlist")."""
     rnd = random.Random(ctx.seed * 7919 + 15)
     n_wraps = 18 if consts['WrapLevel'] >= 2 else 8
     path = os.path.join(ctx.scratch, 'given.ndjson')
     with open(path, 'w') as fh:
-        for g in random_given(rnd, n, n_wraps):
+        for g in random_given(rnd, n_trees, n_wraps):
+            fh.write(json.dumps(g) + '\n')
+    lpath = os.path.join(ctx.scratch, 'given-lists.ndjson')
+    with open(lpath, 'w') as fh:
+        for g in random_lists(rnd, n_lists):
             fh.write(json.dumps(g) + '\n')
     nsh = 16
-    inv = ['TypeOK', 'GeneratorIsReference', 'GeneratorSound', 'BreadthFirst', 'PruneBeforeSelection', 'WrapsDefined',
-           'FullIsExact', 'QuantifierDuality', 'Export']
-    jobs = [dict(module='DirTreeExport', cfg=cfg(dict(consts, NN=3, MaxLevels=4), ['given'], inv, nsh, s), workers=1,
-                 name='given-%d' % s, heap='3g', env={'VERIF_GIVEN': path}, timeout=3000) for s in range(nsh)]
+    jobs = [dict(module='DirTreeExport', cfg=cfg(dict(consts, NN=3, MaxLevels=4), ['given', 'givenlist'],
+                                                 INVARIANTS + ['Export'], nsh, s), workers=1,
+                 name='given-%d' % s, heap='3g', env={'VERIF_GIVEN': path, 'VERIF_GIVEN_LISTS': lpath}, timeout=3000,
+                 java_props=GC) for s in range(nsh)]
     out = []
     for r in tlc_parallel(ctx, jobs, threads=16):
         out += cases_of(r)
-    if len(out) != n:
-        raise core.MachineryFailure('randomised tier: %d scenarios given to TLC, %d judged' % (n, len(out)))
-    return out
+    trees = [sc for sc in out if sc['fam'] == 'given']
+    lists = [sc for sc in out if sc['fam'] == 'populate']
+    if len(trees) != n_trees or len(lists) != n_lists:
+        raise core.MachineryFailure('randomised tier: %d + %d scenarios given to TLC, %d + %d judged'
+                                    % (n_trees, n_lists, len(trees), len(lists)))
+    return trees, lists
 
 
 def end_to_end_controls(ctx, pool, by_fam, rnd):
     """Negative controls through the whole path: the expectation of one probe is inverted BEFORE the run (the batched
     case must then fail, the probes are run on their own and the comparison must name exactly that probe); and a
-    FILE-LIST is run with one entry dropped from the text."""
+    FILE-LIST is run with one more entry in the text."""
     cands = [sc for sc in by_fam['match'] if sum(1 for p in sc['probes'] if p['exp'] in 'TF') > 3 and len(sc['nodes']) > 2]
     picks = rnd.sample(cands, min(24, len(cands)))
     tasks, flipped = [], []
@@ -667,20 +776,18 @@ def end_to_end_controls(ctx, pool, by_fam, rnd):
         tf = [i for i, p in enumerate(sc2['probes']) if p['exp'] in 'TF']
         i = rnd.choice(tf)
         sc2['probes'][i]['exp'] = 'F' if sc2['probes'][i]['exp'] == 'T' else 'T'
-        tasks.append(dict(sc=sc2, direct=False))
+        tasks.append(dict(sc=sc2, direct=False, orig=sc))
         flipped.append(i)
-    obs = pool.map('harness.props.c15:exec_tree', tasks, deadline=180, chunk=2)
+    obs = pool.map('harness.props.c15:exec_tree', [dict(sc=t['sc'], direct=False) for t in tasks], deadline=180, chunk=2)
     pops = [sc for sc in by_fam['populate'] if sc['res'] == 'PASS' and len(sc['top'][0]['sub']) >= 2
             and sc['top'][0]['src'] == 'list']
     ppicks = rnd.sample(pops, min(12, len(pops)))
     ptasks = []
     for sc in ppicks:
-        lines = populate_text(sc).split('\n')
-        # drop the first entry of the list from the text (line 3: the first line after `dir D = {`)
+        # one more entry in the text than in the list TLC judged (a file that nothing else names)
         sc2 = json.loads(json.dumps(sc))
-        sc2['top'][0]['sub'] = sc2['top'][0]['sub'][1:]
-        text = populate_text(dict(sc2, probes=sc['probes']))
-        ptasks.append(dict(sc=sc, text=text))
+        sc2['top'][0]['sub'].append(dict(t='file', name=[5], mod='none', src='none', sub=[]))
+        ptasks.append(dict(sc=sc, text=populate_text(sc2)))
     pobs = pool.map('harness.props.c15:exec_populate', ptasks, deadline=120, chunk=2)
     return dict(tree=(tasks, flipped, obs), populate=(ptasks, pobs))
 
@@ -689,7 +796,8 @@ def negative_controls(ctx, pop, pop_obs, tree_tasks, tree_obs, controls):
     rnd = random.Random(ctx.seed + 1)
     tried = rejected = 0
     # (1) corrupted observations / expectations of FILE-LISTs
-    ok_idx = [j for j, (sc, o) in enumerate(zip(pop, pop_obs)) if not broken(o) and compare_populate(sc, o) is None]
+    ok_idx = [j for j, (sc, o) in enumerate(zip(pop, pop_obs)) if not broken(o) and compare_populate(sc, o) is None
+              and sc['exact']]
     for j in rnd.sample(ok_idx, min(60, len(ok_idx))):
         sc, o = pop[j], json.loads(json.dumps(pop_obs[j]))
         m = tried % 5
@@ -731,18 +839,27 @@ def negative_controls(ctx, pop, pop_obs, tree_tasks, tree_obs, controls):
         tried += 1
         bad = compare_tree(sc, o)
         rejected += bool(bad) and bad[0][0] == int(k)
-    # (3) end to end: inverted expectation before the run; entry dropped from the text
+    # (3) end to end: inverted expectation before the run; one more entry in the text
+    #     (only scenarios on which the program agreed with the specification in the main run can serve as controls)
+    clean_trees = set(id(t['sc']) for t, o in zip(tree_tasks, tree_obs) if not broken(o) and not compare_tree(t['sc'], o))
+    clean_pops = set(id(sc) for sc, o in zip(pop, pop_obs) if not broken(o) and compare_populate(sc, o) is None)
     tasks, flipped, obs = controls['tree']
     for t, i, o in zip(tasks, flipped, obs):
+        if id(t['orig']) not in clean_trees or broken(o) or i in [b[0] for b in compare_tree(t['orig'], o)]:
+            continue        # the program itself disagrees with the specification on this probe: not a control
         tried += 1
-        bad = compare_tree(t['sc'], o)
-        rejected += [b[0] for b in bad] == [i] and not o['batched']
+        rejected += i in [b[0] for b in compare_tree(t['sc'], o)] and not o['batched']
     ptasks, pobs = controls['populate']
     for t, o in zip(ptasks, pobs):
+        if id(t['sc']) not in clean_pops:
+            continue
         tried += 1
         rejected += compare_populate(t['sc'], o) is not None
-    if tried < 50 or tried != rejected:
-        raise core.MachineryFailure('negative controls: %d of %d corrupted cases rejected' % (rejected, tried))
+    if tried != rejected or tried < 50:
+        msg = 'negative controls: %d of %d corrupted cases rejected' % (rejected, tried)
+        if not ctx.violations:
+            raise core.MachineryFailure(msg)
+        ctx.note(msg + ' (the program violates the property in this run; controls are taken from agreeing cases)')
     ctx.cov['negative_controls_rejected'] += rejected
 
 
@@ -760,9 +877,11 @@ def samples(ctx, pop, pop_obs, tree_tasks, tree_obs):
             sc, o = x
             ctx.sample(dict(family=sc['fam'], case=populate_text(sc), expected=dict(verdict=sc['res'],
                                                                                     tree=expected_tree(sc)),
-                            observed=dict(verdict=o.get('verdict'), tree=o.get('act'))), limit=8)
-    for pred in (lambda x: x[0]['sc']['fam'] == 'match' and x[0]['sc']['wi'] == 8 and len(x[0]['sc']['nodes']) >= 4
-                 and x[0]['sc']['opt']['min'] == 1,
+                            observed=dict(verdict=o.get('verdict'), tree=o.get('act'))), limit=9)
+    for pred in (lambda x: x[0]['sc']['fam'] == 'match' and x[0]['sc']['wi'] == 7 and len(x[0]['sc']['files']) >= 2
+                 and x[0]['sc']['opt']['rec'] and len(x[0]['sc']['files']) < len(x[0]['sc']['nodes']) - 1,
+                 lambda x: x[0]['sc']['fam'] == 'match' and x[0]['sc']['wi'] == 1 and x[0]['sc']['opt']['min'] == 1
+                 and x[0]['sc']['opt']['max'] == 1 and len(x[0]['sc']['files']) >= 1 and len(x[0]['sc']['nodes']) >= 4,
                  lambda x: x[0]['sc']['fam'] == 'exists' and len(x[0]['sc']['nodes']) >= 3,
                  lambda x: x[0]['sc']['fam'] == 'names' and len(x[0]['sc']['text']) >= 3,
                  lambda x: x[0]['sc']['fam'] == 'given'):
@@ -770,9 +889,9 @@ def samples(ctx, pop, pop_obs, tree_tasks, tree_obs):
         if x and not broken(x[1]):
             sc, o = x[0]['sc'], x[1]
             ps = [dict(instruction=probe_line(sc, p, False), expected=VERDICT.get(p['exp'], 'unspecified'),
-                       observed=o['obs'].get(i)) for i, p in enumerate(sc['probes'])]
+                       observed=o['obs'][i]) for i, p in enumerate(sc['probes']) if i in o['obs']]
             ctx.sample(dict(family=sc['fam'], tree=tree_name(sc), files_of_model=[rel_path(r) for r in sc['files']],
-                            probes=ps[:6] + ps[-3:]), limit=8)
+                            probes=ps[:5] + ps[-2:]), limit=9)
 
 
 def replay(ctx, rec):
